@@ -753,6 +753,8 @@ func (ro *RedisOutput) parseAofCommand(replayQuit usync.WaitCloser, reader *bufi
 	var (
 		currentDB = -1
 		bypass    = false
+		prevEnd   = startOffset // end offset of the previous command
+		bypassOff = startOffset // offset in front of the SELECT that started the filtered stretch
 		newArgv   [][]byte
 		reject    bool
 	)
@@ -794,6 +796,12 @@ func (ro *RedisOutput) parseAofCommand(replayQuit usync.WaitCloser, reader *bufi
 			return errors.Join(ErrCorrupted, err)
 		}
 		aofCmdCounter.Inc(ro.cfg.InputName)
+		cmdStart := prevEnd
+		prevEnd = startOffset + incrOffset
+
+		// MULTI/EXEC belong to the stream, not to a database : redis propagates EXEC in the last database a
+		// transaction wrote to, the sender has to see it even if that database is filtered
+		txnBracket := sCmd == "multi" || sCmd == "exec"
 
 		// filter db, filter command, filter key
 		if sCmd != "ping" {
@@ -809,6 +817,9 @@ func (ro *RedisOutput) parseAofCommand(replayQuit usync.WaitCloser, reader *bufi
 					ro.logger.Errorf("%s", err.Error())
 					return err
 				}
+				if !bypass {
+					bypassOff = cmdStart
+				}
 				bypass = ro.outFilter.FilterDb(n) // filter following commands
 				selectDB = n
 			} else if ro.outFilter.FilterCmd(sCmd) {
@@ -817,14 +828,14 @@ func (ro *RedisOutput) parseAofCommand(replayQuit usync.WaitCloser, reader *bufi
 				ignoresentinel = true
 			}
 
-			if bypass || ignoreCmd || ignoresentinel {
+			if (bypass && !txnBracket) || ignoreCmd || ignoresentinel {
 				ro.filterCounterAdd(1)
 				continue
 			}
 		}
 
 		newArgv, reject = ro.outFilter.FilterCmdKey(sCmd, argv)
-		if bypass || reject {
+		if (bypass && !txnBracket) || reject {
 			ro.filterCounterAdd(1)
 			continue
 		}
@@ -852,6 +863,10 @@ func (ro *RedisOutput) parseAofCommand(replayQuit usync.WaitCloser, reader *bufi
 			Args:   data,
 			Offset: startOffset + incrOffset,
 			Db:     currentDB,
+		}
+		if bypass {
+			// the filtered SELECT was not sent : a checkpoint must not point behind it
+			cmdExec.Offset = bypassOff
 		}
 		if len(syncDelayTestkey) > 0 {
 			if sCmd == "set" && len(argv) > 0 {
